@@ -290,7 +290,7 @@ def bind_sizes(interp, sp, val, sizes, what):
         for nm, x in ((sp.lo, val.start), (sp.hi, val.stop)):
             if isinstance(nm, str) and nm not in sizes and x is not None:
                 sizes[nm] = x
-    elif isinstance(sp, S.TupleT) and isinstance(val, tuple):
+    elif isinstance(sp, (S.TupleT, S.ListT)) and isinstance(val, (tuple, list)):
         for v, x in zip(sp.items, val):
             bind_sizes(interp, v, x, sizes, what)
     elif isinstance(sp, S.DictT) and isinstance(val, dict):
@@ -353,6 +353,14 @@ def apply_callee_contract(interp, cands, mod, cname, fn, args, kwargs, ftxt):
     for pname, sp in c.params.items():
         if pname in env:
             bind_sizes(interp, sp, env[pname], sizes, c.target)
+    allsz = set()
+    for sp in c.params.values():
+        size_names(sp, allsz)
+    for nm in sorted(allsz):
+        if nm not in sizes:
+            v = ctx.fresh('size_' + nm, IntS)
+            ctx.assume(v >= 0)
+            sizes[nm] = v
     saved = (interp.sizes, interp.old_env, interp.ghost_env)
     interp.sizes = sizes
     interp.ghost_env = {}
